@@ -599,6 +599,15 @@ def main():
             if not poly.contains_coordinate(C((2, 4))):
                 ck.known(f)
 
+    # known finding D48: the 10-decimal rounding inside find_line_intersection flips the parity for a query whose latitude
+    # needs 11+ decimals (exact even-odd reference says outside; the theorems are about exact arithmetic, DESIGN 3)
+    for f in ck.findings:
+        if f.get('status') == 'open' and f.get('signature') == 'latitude_beyond_ten_decimals':
+            rp = f['replay']
+            tri = GeoPolygon([Coordinate(x, y) for x, y in rp['outline'] + rp['outline'][:1]])
+            if tri.contains_coordinate(Coordinate(*rp['query'])) != rp['expected']:
+                ck.known(f)
+
     ck.finish(rule='16 fixed rings on the 0..8 grid (convex, concave, collinear vertices, axis-parallel edges, vertices touching a '
                    'level line from one side) + seeded star-shaped rings, each queried at EVERY grid and half-grid point of '
                    '[-1,9]^2 (441 queries: on vertices, on edges, on horizontal edges, level with vertices inside and outside), '
